@@ -22,6 +22,10 @@ From CF Require Import C12.Proofs_plan.
 From CF Require Import C12.Session.
 From CF Require Import C12.Proofs_override.
 From CF Require Import C12.Proofs_session.
+From CF Require Import C12.Plan.
+From CF Require Import C12.Proofs_sequence.
+From CF Require Import C12.Proofs_read.
+From CF Require Import C12.Refute.
 Open Scope Z_scope.
 
 (* Success means the image is in flash, byte for byte, at start * page_size — provided positive
@@ -214,3 +218,97 @@ Theorem C12_sdbl_image_at_flash_end : forall T sp sd q scr q' scr' tr,
   zslice (t_flash (deliver T tr)) (page * ps) (zlen sd) = sd.
 Proof. exact sdbl_exact. Qed.
 Print Assumptions C12_sdbl_image_at_flash_end.
+
+(* ------------------------------------------------------------------ growth round: several artifacts, selection, reboot, read-back *)
+
+(* Bootloader.flash(zip, targets), for ALL manifests, target lists and info caches: either it raises before any
+   _internal_flash, or it flashes the firmware artifacts of the manifest (fw_items = one call per artifact that
+   passes `wanted`) with the geometry held at entry (k0), or it does the bootloader+softdevice step with k0, reboots,
+   and flashes the firmware artifacts with the geometry learnt AFTER the reboot (k1) — never with the stale one. *)
+Theorem C12_flash_plan_shape : forall platform k0 k1 arts sels,
+  let p := flash_plan platform k0 k1 arts sels in
+  (exists e, p = [PRaise e]) \/
+  p = fw_items k0 platform sels arts \/
+  (exists n0 a, k_nrf k0 = Some n0 /\ In a arts /\ s_type (f_sel a) = SDBL /\
+                p = sd_items k0 n0 a ++ fw_items k1 platform sels arts).
+Proof. exact flash_plan_shape. Qed.
+Print Assumptions C12_flash_plan_shape.
+
+(* The firmware phase takes every firmware artifact of the manifest — every artifact of the platform that is not a
+   bootloader+softdevice — once each, in manifest order, whatever the target list names; the list only decides
+   whether the phase runs at all (empty, or some target of this platform named). *)
+Theorem C12_selected_artifacts_once_in_order : forall platform sels arts,
+  fw_selected platform sels arts = filter (wanted platform sels) arts.
+Proof. exact fw_selected_spec. Qed.
+Print Assumptions C12_selected_artifacts_once_in_order.
+
+(* The calls are started in plan order, each once; all of them when flash() returns normally. *)
+Theorem C12_plan_calls_in_order_once : forall p scr o s tr cs rb,
+  run_plan p scr = (o, s, tr, cs, rb) ->
+  exists rest, calls_of p = cs ++ rest /\ (o = SDone -> rest = []).
+Proof. exact run_plan_calls. Qed.
+Print Assumptions C12_plan_calls_in_order_once.
+
+(* A target (any state, any geometry) to which no call of the plan is addressed is not modified — whatever the
+   script does, however the session ends. *)
+Theorem C12_unaddressed_target_untouched : forall p scr o s tr cs rb O,
+  run_plan p scr = (o, s, tr, cs, rb) ->
+  (forall c, In c (calls_of p) -> l_tid c <> t_id O) ->
+  deliver O tr = O.
+Proof. exact run_plan_untouched. Qed.
+Print Assumptions C12_unaddressed_target_untouched.
+
+(* On every target, over the whole session (several artifacts, retries, aborts): no command out of range, geometry
+   and sizes unchanged, and no flash byte changes outside the union of the page ranges of the calls addressed to it
+   that were actually started — provided those calls use the target's real geometry, a non-empty image and a
+   non-negative page (call_sane). *)
+Theorem C12_session_nothing_outside_union : forall p scr T o s tr cs rb,
+  geom_ok T -> t_oob T = false -> u8 (t_id T) = true ->
+  Forall (call_sane T) (calls_of p) ->
+  run_plan p scr = (o, s, tr, cs, rb) ->
+  let T' := deliver T tr in
+  geom_ok T' /\ t_oob T' = false /\
+  (t_id T', t_ps T', t_bp T', t_fp T') = (t_id T, t_ps T, t_bp T, t_fp T) /\
+  zlen (t_flash T') = zlen (t_flash T) /\
+  forall a, 0 <= a < zlen (t_flash T) ->
+            (forall c, In c cs -> l_tid c = t_id T -> ~ call_range c a) ->
+            zn (t_flash T') a = zn (t_flash T) a.
+Proof. exact run_plan_safe. Qed.
+Print Assumptions C12_session_nothing_outside_union.
+
+(* Cloader.read_flash: for every page size (any remainder modulo the 25-byte chunks, device replies that run past
+   the end of the page or stop at the end of the flash), every page, every pattern of lost replies and foreign
+   packets: a returned buffer is the device's flash [page*ps_device, +ps) byte for byte, and at most six requests
+   are sent per chunk. *)
+Theorem C12_read_flash_exact : forall T addr ps page fs r fs' tr,
+  rf_honest addr fs -> 0 <= ps -> 0 <= page * t_ps T ->
+  read_flash T addr ps page fs = (r, fs', tr) ->
+  (length tr <= 6 * Z.to_nat ((ps + 24) / 25))%nat /\
+  forall b, r = RBuf b -> b = zslice (t_flash T) (page * t_ps T) ps.
+Proof. exact read_flash_exact. Qed.
+Print Assumptions C12_read_flash_exact.
+
+(* REFUTATION of a stale info cache across the reboot (what seeded change C12-e does): with the geometry learnt
+   before the reboot kept, the nRF51 firmware of the example zip is programmed at page 88 — a byte that no call of
+   the correct plan may touch, and that the correct plan leaves unchanged, is modified. *)
+Theorem C12_stale_cache_refuted :
+  exists platform k0 k1 arts sels T a,
+    let '(_, _, tr_ok, cs_ok, _) := run_plan (flash_plan platform k0 k1 arts sels) [] in
+    let '(o, _, tr_stale, _, _) := run_plan (flash_plan_stale platform k0 k1 arts sels) [] in
+    o = SDone /\
+    (forall c, In c cs_ok -> l_tid c = t_id T -> ~ call_range c a) /\
+    zn (t_flash (deliver T tr_ok)) a = zn (t_flash T) a /\
+    zn (t_flash (deliver T tr_stale)) a <> zn (t_flash T) a.
+Proof. exact stale_cache_refuted. Qed.
+Print Assumptions C12_stale_cache_refuted.
+
+(* OBSERVATION, outside the property text: which targets the list names is not consulted by the firmware phase.
+   For the example zip, targets = [cf2/stm32/fw] gives the same calls as the empty list, the nRF51 firmware included. *)
+Theorem C12_target_list_ignored_observation :
+  exists platform k0 k1 arts sels,
+    sels = [mkSel 2 255 1] /\
+    (exists c, In c (calls_of (flash_plan platform k0 k1 arts sels)) /\ l_tid c = 254 /\ l_override c = None /\
+               l_image c = [9;9;9;9;9]) /\
+    calls_of (flash_plan platform k0 k1 arts sels) = calls_of (flash_plan platform k0 k1 arts []).
+Proof. exact target_list_ignored. Qed.
+Print Assumptions C12_target_list_ignored_observation.
